@@ -13,7 +13,14 @@ pub struct VariableUse {
 
 impl VariableUse {
     pub fn new(meta: &Meta, name: &VariableName, access: &[AccessType]) -> VariableUse {
-        VariableUse { meta: meta.clone(), name: name.clone(), access: access.to_owned() }
+        // The cached variable use of the node is not part of the use: the node's
+        // cache would otherwise contain a copy of its previous contents each
+        // time it is recomputed.
+        VariableUse {
+            meta: meta.without_variable_knowledge(),
+            name: name.clone(),
+            access: access.to_owned(),
+        }
     }
 
     pub fn meta(&self) -> &Meta {
